@@ -83,7 +83,7 @@ def prediction_vector(draw, n, mode=None):
 def _containers(draw, names):
     out = {}
     for nm in names:
-        out[nm + "_kind"] = draw(st.sampled_from(VEC_KINDS))
+        out[nm + "_kind"] = draw(st.sampled_from(VEC_KINDS + (["series_categorical", "dataframe_categorical"] if nm in ("sf", "cf") else [])))
         out[nm + "_index"] = draw(st.sampled_from(["rev", "offset", "dup", "str", "shuffled"]))
     return out
 
